@@ -83,7 +83,7 @@ theorem keyMgmt_media (O : Oracle) (ab : Bool) (m : Media) (h : ∀ k, m.keyMgmt
       simp [preAttrs, keyMgmtAttr, hasPrefix, List.isPrefixOf, b64dec_b64, hm]
 
 /-- **Media round trip** (below the text layer): `Media.Unmarshal (Media.Marshal m) = m`. -/
-theorem unmarshalMedia_marshal (O : Oracle) (ab : Bool) (m : Media) (hm : ValidMedia O m) :
+theorem unmarshalMedia_marshal (O : Oracle) (ab : Bool) (m : Media) (hm : GoodMedia O m) :
     unmarshalMedia O (marshalMedia ab m) = .ok m := by
   have hfm : (marshalMedia ab m).fmts = m.formats.map fun f => dec f.pt := rfl
   have hprof : ((marshalMedia ab m).protos.contains b!"SAVP") = (m.profile == .savp) := by
@@ -108,7 +108,7 @@ open Rtsp.Facts.Sdp Format
 
 /-! ### the session -/
 
-theorem unmarshalMedias_marshal (O : Oracle) (ab : Bool) (acc ms : List Media) (hv : ∀ m ∈ ms, ValidMedia O m)
+theorem unmarshalMedias_marshal (O : Oracle) (ab : Bool) (acc ms : List Media) (hv : ∀ m ∈ ms, GoodMedia O m)
     (hid : (∀ m ∈ ms, m.id = []) ∨ (acc ++ ms).Pairwise (fun a b => a.id ≠ b.id)) :
     unmarshalMedias O acc (ms.map (marshalMedia ab)) = .ok (acc ++ ms) := by
   induction ms generalizing acc with
@@ -183,7 +183,7 @@ theorem fecGroupsOf_marshal (ms : List Media) (gs : List (List Str))
 
 /-- **Description round trip below the text layer**: `Session.Unmarshal2` applied to the pion document that
 `Session.Marshal` builds returns the session. -/
-theorem unmarshalDoc_marshal (O : Oracle) (s : Session) (hs : ValidSession O s) : unmarshalDoc O (marshalDoc s) = .ok s := by
+theorem unmarshalDoc_marshal (O : Oracle) (s : Session) (hs : GoodSession O s) : unmarshalDoc O (marshalDoc s) = .ok s := by
   have hmne : (marshalDoc s).medias.isEmpty = false := by
     cases hm : s.medias with
     | nil => exact absurd hm hs.medias_ne
